@@ -28,6 +28,30 @@ func dynCalleeField(call *ssa.Call) string {
 		return ""
 	}
 	n, _ := fieldLoadName(call.Call.Value)
+	if n == "" {
+		// the callback was handed to a private helper as a parameter (consume(queue, data.OnFile))
+		if p, isP := call.Call.Value.(*ssa.Parameter); isP {
+			names := map[string]bool{}
+			for _, a := range liftSites(p) {
+				ln, _ := fieldLoadName(a)
+				names[ln] = true
+			}
+			if len(names) > 0 {
+				ok := true
+				for k := range names {
+					if k != "OnDir" && k != "OnFile" {
+						ok = false
+					}
+				}
+				if ok {
+					if names["OnFile"] && !names["OnDir"] {
+						return "OnFile"
+					}
+					return "OnDir"
+				}
+			}
+		}
+	}
 	return n
 }
 
@@ -67,11 +91,22 @@ func rulesC08(c *Ctx) {
 				return
 			}
 			nm, base := fieldLoadName(cc.Value)
-			if (nm != "OnDir" && nm != "OnFile") || base == nil {
-				return
-			}
-			if pt, ok := base.Type().Underlying().(*types.Pointer); !ok || !strings.HasSuffix(typeString(pt.Elem()), "fsloop.LoopData") {
-				return
+			if nm == "" {
+				if cl, isCall := in.(*ssa.Call); isCall {
+					if ln := dynCalleeField(cl); ln == "OnDir" || ln == "OnFile" {
+						nm = ln
+					}
+				}
+				if nm == "" {
+					return
+				}
+			} else {
+				if (nm != "OnDir" && nm != "OnFile") || base == nil {
+					return
+				}
+				if pt, ok := base.Type().Underlying().(*types.Pointer); !ok || !strings.HasSuffix(typeString(pt.Elem()), "fsloop.LoopData") {
+					return
+				}
 			}
 			n1++
 			_, isCall := in.(*ssa.Call)
@@ -79,21 +114,31 @@ func rulesC08(c *Ctx) {
 				"a callback is invoked outside Consumer.Loop (or asynchronously) — more callbacks run at once than the configured consumer count, and Wait does not cover it")
 		})
 	}
-	c.Floor("R1", n1, 2)
+	c.Floor("R1", n1, 1)
 
 	// ---- R2 bounded consumers ----------------------------------------------------------
 	{
+		// Loop.Run may be split into private stages that only it calls (startConsumers, ...)
+		runGroup := map[*ssa.Function]bool{}
+		for _, g := range privateGroup(c.P, run, false) {
+			runGroup[g] = true
+		}
+		runOrig := run
 		var goCons []*ssa.Go
-		eachInstr(run, func(_ *ssa.BasicBlock, _ int, in ssa.Instruction) {
-			if g, ok := in.(*ssa.Go); ok {
-				ci := callInfo(g, nil, 0)
-				if ci.Static == consLoop {
-					goCons = append(goCons, g)
+		for g := range runGroup {
+			eachInstr(g, func(_ *ssa.BasicBlock, _ int, in ssa.Instruction) {
+				if gi, ok := in.(*ssa.Go); ok {
+					ci := callInfo(gi, nil, 0)
+					if ci.Static == consLoop {
+						goCons = append(goCons, gi)
+						run = g // the stage that starts the consumers
+					}
 				}
-			}
-		})
+			})
+		}
+		_ = runOrig
 		for _, f := range c.P.AllModuleFuncs() {
-			if f == run {
+			if runGroup[f] {
 				continue
 			}
 			eachInstr(f, func(_ *ssa.BasicBlock, _ int, in ssa.Instruction) {
@@ -116,13 +161,42 @@ func rulesC08(c *Ctx) {
 					return
 				}
 				bo, isBo := iff.Cond.(*ssa.BinOp)
-				if !isBo || bo.Op != token.LSS {
+				if !isBo {
 					return
 				}
 				if !iff.Block().Succs[0].Dominates(g.Block()) && iff.Block().Succs[0] != g.Block() {
 					return
 				}
-				for _, o := range Origins(bo.Y, FlowOpts{}) {
+				// counting up to the grant (i < granted) or counting the grant down (left > 0, left--)
+				bound := bo.Y
+				switch {
+				case bo.Op == token.LSS:
+				case bo.Op == token.GTR:
+					if k, isK := constInt(bo.Y); !isK || k != 0 {
+						return
+					}
+					ph, isPhi := bo.X.(*ssa.Phi)
+					if !isPhi {
+						return
+					}
+					dec := false
+					bound = nil
+					for _, e := range ph.Edges {
+						if sub, isSub := e.(*ssa.BinOp); isSub && sub.Op == token.SUB && sub.X == ssa.Value(ph) {
+							if k, isK := constInt(sub.Y); isK && k == 1 {
+								dec = true
+								continue
+							}
+						}
+						bound = e
+					}
+					if !dec || bound == nil {
+						return
+					}
+				default:
+					return
+				}
+				for _, o := range Origins(bound, FlowOpts{}) {
 					if o.Kind == "call" && strings.HasPrefix(o.Name, poolAdd+"#") {
 						call := o.Val.(*ssa.Call)
 						if n, _ := fieldLoadName(call.Call.Args[0]); n == "consumerPool" {
@@ -191,6 +265,7 @@ func rulesC08(c *Ctx) {
 		c.Check(okA, "R2", "Pool.Add grants at most max-counter", padd.Pos(), "granted = min(requested, max-counter)", "Pool.Add can grant more than the free capacity")
 	}
 
+	run = c.P.Func(loopPkg, "Loop", "Run") // (R2 looked at the stage that starts the consumers)
 	// ---- R3 Wait covers the last callback; producers accounted ----------------------------
 	{
 		deferDoneFirst := func(f *ssa.Function, what string) {
@@ -339,17 +414,24 @@ func rulesC08(c *Ctx) {
 			c.Check(viol == "", "R4", con, call.Pos(), "reaches Lifecycle.Error on every path of its non-nil edge", "the error can leave through "+viol+" without being handed to Lifecycle.Error — it never appears in the loop's error list")
 		}
 	}
-	c.Floor("R4", n4, 4)
+	c.Floor("R4", n4, 2)
 
 	// ---- R5 completion order -------------------------------------------------------------------
 	{
 		var comp *ssa.Function
-		for _, g := range withClosures(run) {
-			if g == run {
-				continue
-			}
-			if len(CallsTo(g, poolWait)) > 0 {
-				comp = g
+		compStarted := false
+		for _, g0 := range privateGroup(c.P, run, false) {
+			for _, g := range withClosures(g0) {
+				if g != g0 && len(CallsTo(g, poolWait)) > 0 {
+					comp = g
+				}
+				// a named method started with go (go loop.closeAfter(pool))
+				for _, ci := range Calls(g) {
+					if ci.Kind == "go" && ci.Static != nil && ci.Static.Pkg == run.Pkg && len(CallsTo(ci.Static, poolWait)) > 0 {
+						comp = ci.Static
+						compStarted = true
+					}
+				}
 			}
 		}
 		if comp == nil {
@@ -386,7 +468,7 @@ func rulesC08(c *Ctx) {
 				why = "the close step is announced before the producer pool has drained"
 			}
 			// started with go
-			started := false
+			started := compStarted
 			eachInstr(run, func(_ *ssa.BasicBlock, _ int, in ssa.Instruction) {
 				if g, isGo := in.(*ssa.Go); isGo {
 					if mc, isMC := g.Call.Value.(*ssa.MakeClosure); isMC && mc.Fn == ssa.Value(comp) {
@@ -534,6 +616,9 @@ func rulesC08(c *Ctx) {
 
 	// ---- R8 every listed entry is visited ----
 	c.Floor("R8", ruleWalkersVisitAll(c, "R8"), 2)
+
+	// ---- R9 the filters gate what is queued and entered ----
+	c.Floor("R9", ruleFiltersGate(c, "R9", prodLoop), 4)
 }
 
 // isAvail: v is `p.max - p.counter`.
